@@ -9,7 +9,7 @@ verify)
   src=/tmp/seeded_out/$name
   [ -f $src/patch.diff ] || { echo "no $src/patch.diff"; exit 2; }
   wt=/tmp/wt/verify_$name
-  git -C /repo worktree add -q --detach $wt HEAD || exit 2
+  git -C /repo worktree remove --force $wt 2>/dev/null; rm -rf $wt; git -C /repo worktree prune; git -C /repo worktree add -q --detach $wt HEAD || exit 2
   ( cd $wt
     PYTHONPATH=$wt/src /venv/bin/python $src/demo.py >/tmp/demo_clean_$name.log 2>&1; clean=$?
     git apply $src/patch.diff || { echo "patch does not apply"; exit 2; }
